@@ -130,3 +130,6 @@ def obligations(ctx):
     if nok == 0:
         ob.fail("no Ok path")
     ob.finish(E)
+    # change outputs: every output the balancing step creates passes the admission check (shared exploration with C05 / C06)
+    from obl.c05 import change_step
+    change_step(ctx, record=("c07",), rounds=1)
